@@ -253,6 +253,12 @@ type Opt struct {
 	Initial     []string `json:"initial,omitempty"`
 	RawTag      *string  `json:"rawtag,omitempty"` // used verbatim when set
 	CbErr       bool     `json:"cberr,omitempty"`  // callback kinds returning error: the callback fails
+	// Inline: the option's field is declared inside an untagged struct-typed
+	// field of the group's struct (the library "dives into" such fields):
+	// "s" struct, "p" pointer to struct, nil at setup, "P" pointer, allocated,
+	// "e" embedded struct. Consecutive options with the same mark share one
+	// such field.
+	Inline string `json:"inline,omitempty"`
 }
 
 func (o *Opt) IsOptional() bool { return o.Optional != "" }
@@ -277,6 +283,7 @@ type Group struct {
 	Groups       []Group `json:"groups,omitempty"`
 	RawTag       *string `json:"rawtag,omitempty"` // tag of the group's struct field, verbatim (nested groups only)
 	OptsLast     bool    `json:"optslast,omitempty"` // the option fields are declared after the nested group fields
+	Ptr          string  `json:"ptr,omitempty"`      // nested groups: the field is a pointer to the struct: "nil" at setup, or "set"
 }
 
 type PosArg struct {
@@ -310,6 +317,7 @@ type Cmd struct {
 	Pos      *Positional `json:"pos,omitempty"`
 	Cmds     []Cmd       `json:"cmds,omitempty"`
 	RawTag   *string     `json:"rawtag,omitempty"` // tag of the command's struct field, verbatim (by-tag commands only)
+	Ptr      string      `json:"ptr,omitempty"`    // by-tag commands: the field is a pointer to the struct: "nil" at setup, or "set"
 }
 
 type Decl struct {
@@ -547,6 +555,11 @@ type Built struct {
 	ExecArgsRaw []string
 	Cmds        map[string]*flags.Command // cmd ID -> library command
 	Err         error                     // setup error from AddGroup/AddCommand
+	// Detached: fields the caller cannot reach after setup, because the
+	// library left the pointer-typed field leading to them nil although it
+	// registered their options (key: opt ID or positional key; value: why).
+	// OptVal/PosVal then refer to a zero value: what the caller sees.
+	Detached map[string]string
 }
 
 func plainType(kind string) reflect.Type {
@@ -621,6 +634,26 @@ func posStructType(p *Positional) reflect.Type {
 	return reflect.StructOf(fs)
 }
 
+type inlineBlock struct {
+	from, to int
+	mark     string
+	field    string
+}
+
+// inlineBlocks partitions the options of g into maximal runs of equal Inline mark.
+func inlineBlocks(g *Group) []inlineBlock {
+	var r []inlineBlock
+	for i := range g.Options {
+		m := g.Options[i].Inline
+		if n := len(r); n > 0 && r[n-1].mark == m {
+			r[n-1].to = i + 1
+			continue
+		}
+		r = append(r, inlineBlock{from: i, to: i + 1, mark: m, field: "In" + g.Options[i].Field})
+	}
+	return r
+}
+
 // groupType builds the struct type for a group. host, when non-nil, is the
 // command whose by-tag sub-commands and positional struct live in this struct.
 func (bl *builder) groupType(g *Group, host *Cmd) reflect.Type {
@@ -632,9 +665,22 @@ func (bl *builder) groupType(g *Group, host *Cmd) reflect.Type {
 		}
 	}
 	var optFields []reflect.StructField
-	for i := range g.Options {
-		o := &g.Options[i]
-		optFields = append(optFields, reflect.StructField{Name: o.Field, Type: o.Kind.Type(), Tag: reflect.StructTag(o.Tag())})
+	for _, blk := range inlineBlocks(g) {
+		var bf []reflect.StructField
+		for i := blk.from; i < blk.to; i++ {
+			o := &g.Options[i]
+			bf = append(bf, reflect.StructField{Name: o.Field, Type: o.Kind.Type(), Tag: reflect.StructTag(o.Tag())})
+		}
+		switch blk.mark {
+		case "":
+			optFields = append(optFields, bf...)
+		case "s":
+			optFields = append(optFields, reflect.StructField{Name: blk.field, Type: reflect.StructOf(bf)})
+		case "e":
+			optFields = append(optFields, reflect.StructField{Name: blk.field, Type: reflect.StructOf(bf), Anonymous: true})
+		default: // "p", "P"
+			optFields = append(optFields, reflect.StructField{Name: blk.field, Type: reflect.PtrTo(reflect.StructOf(bf))})
+		}
 	}
 	if !g.OptsLast {
 		fs = append(fs, optFields...)
@@ -664,7 +710,11 @@ func (bl *builder) groupType(g *Group, host *Cmd) reflect.Type {
 		if sg.RawTag != nil {
 			tag = *sg.RawTag
 		}
-		fs = append(fs, reflect.StructField{Name: sg.Field, Type: bl.groupType(sg, nil), Tag: reflect.StructTag(tag)})
+		gt := bl.groupType(sg, nil)
+		if sg.Ptr != "" {
+			gt = reflect.PtrTo(gt)
+		}
+		fs = append(fs, reflect.StructField{Name: sg.Field, Type: gt, Tag: reflect.StructTag(tag)})
 	}
 	if g.OptsLast {
 		fs = append(fs, optFields...)
@@ -711,7 +761,11 @@ func (bl *builder) groupType(g *Group, host *Cmd) reflect.Type {
 			if c.RawTag != nil {
 				tag = *c.RawTag
 			}
-			fs = append(fs, reflect.StructField{Name: c.Field, Type: bl.cmdType(c), Tag: reflect.StructTag(tag)})
+			ct := bl.cmdType(c)
+			if c.Ptr != "" {
+				ct = reflect.PtrTo(ct)
+			}
+			fs = append(fs, reflect.StructField{Name: c.Field, Type: ct, Tag: reflect.StructTag(tag)})
 		}
 	}
 	return reflect.StructOf(fs)
@@ -723,60 +777,143 @@ func (bl *builder) cmdType(c *Cmd) reflect.Type {
 	return bl.groupType(&c.G, c)
 }
 
-// bind records field values of group g living in struct value v.
-func (bl *builder) bindGroup(cmdID, path string, g *Group, v reflect.Value, host *Cmd) {
-	b := bl.b
-	for i := range g.Plain {
-		p := &g.Plain[i]
-		f := v.FieldByName(p.Field)
-		iv := plainInit(p)
-		f.Set(reflect.ValueOf(iv))
-		key := cmdID + "/" + path + "/" + p.Field
-		b.PlainVal[key] = f
-		b.PlainIni[key] = iv
+// throughPtr follows a pointer-typed field f declared with mark ("nil": nil at
+// setup, anything else: allocated by the caller). In phase 0 an allocated
+// pointer is created and followed, a nil one is not followed. In phase 1 (after
+// the library scanned the struct) a nil-declared pointer is followed if the
+// library allocated it; if it did not, a detached zero struct stands for what
+// the caller can see. behind reports whether the subtree lies behind a
+// nil-declared pointer.
+func (bl *builder) throughPtr(f reflect.Value, isNil bool, phase int, behind bool, what string) (elem reflect.Value, nowBehind, follow bool, detached string) {
+	if !isNil {
+		if phase == 0 && !behind {
+			f.Set(reflect.New(f.Type().Elem()))
+		}
+		if f.IsNil() {
+			// allocated pointer inside a subtree that is itself handled in phase 1
+			f.Set(reflect.New(f.Type().Elem()))
+		}
+		return f.Elem(), behind, true, ""
 	}
-	for i := range g.Options {
-		o := &g.Options[i]
-		f := v.FieldByName(o.Field)
-		b.OptVal[o.ID] = f
-		bl.initOpt(o, f)
+	if phase == 0 {
+		return reflect.Value{}, false, false, ""
+	}
+	if f.IsNil() {
+		return reflect.New(f.Type().Elem()).Elem(), true, true, what + " was nil at setup and is still nil afterwards"
+	}
+	return f.Elem(), true, true, ""
+}
+
+// bindGroup records (and initialises) the fields of group g living in struct
+// value v. It runs twice: phase 0 before the struct is handed to the library
+// (everything not behind a nil pointer), phase 1 afterwards (the rest).
+func (bl *builder) bindGroup(cmdID, path string, g *Group, v reflect.Value, host *Cmd, phase int, behind bool, detached string) {
+	b := bl.b
+	mine := behind == (phase == 1)
+	if mine {
+		for i := range g.Plain {
+			p := &g.Plain[i]
+			f := v.FieldByName(p.Field)
+			iv := plainInit(p)
+			f.Set(reflect.ValueOf(iv))
+			key := cmdID + "/" + path + "/" + p.Field
+			b.PlainVal[key] = f
+			b.PlainIni[key] = iv
+		}
+	}
+	for _, blk := range inlineBlocks(g) {
+		bv, bBehind, bDet := v, behind, detached
+		switch blk.mark {
+		case "":
+		case "s", "e":
+			bv = v.FieldByName(blk.field)
+		default:
+			e, nb, follow, det := bl.throughPtr(v.FieldByName(blk.field), blk.mark == "p", phase, behind, "untagged pointer field "+blk.field)
+			if !follow {
+				continue
+			}
+			bv, bBehind = e, nb
+			if det != "" {
+				bDet = det
+			}
+		}
+		if bBehind != (phase == 1) {
+			continue
+		}
+		for i := blk.from; i < blk.to; i++ {
+			o := &g.Options[i]
+			f := bv.FieldByName(o.Field)
+			b.OptVal[o.ID] = f
+			if bDet != "" {
+				b.Detached[o.ID] = bDet
+			}
+			bl.initOpt(o, f)
+		}
 	}
 	// alias plain fields: an untagged slice field sharing the backing array of a
 	// pre-populated slice option (Init = option ID); the snapshot is a deep copy
-	for i := range g.Plain {
-		p := &g.Plain[i]
-		if !strings.HasPrefix(p.Kind, "alias:") {
-			continue
+	if mine {
+		for i := range g.Plain {
+			p := &g.Plain[i]
+			if !strings.HasPrefix(p.Kind, "alias:") {
+				continue
+			}
+			of, ok := b.OptVal[p.Init]
+			if !ok || of.Kind() != reflect.Slice || of.Len() == 0 {
+				continue
+			}
+			f := v.FieldByName(p.Field)
+			f.Set(of)
+			cp := reflect.MakeSlice(of.Type(), of.Len(), of.Len())
+			reflect.Copy(cp, of)
+			b.PlainIni[cmdID+"/"+path+"/"+p.Field] = cp.Interface()
 		}
-		of, ok := b.OptVal[p.Init]
-		if !ok || of.Kind() != reflect.Slice || of.Len() == 0 {
-			continue
-		}
-		f := v.FieldByName(p.Field)
-		f.Set(of)
-		cp := reflect.MakeSlice(of.Type(), of.Len(), of.Len())
-		reflect.Copy(cp, of)
-		b.PlainIni[cmdID+"/"+path+"/"+p.Field] = cp.Interface()
 	}
 	for i := range g.Groups {
 		sg := &g.Groups[i]
-		bl.bindGroup(cmdID, path+"."+sg.Field, sg, v.FieldByName(sg.Field), nil)
+		gv, gBehind, gDet := v.FieldByName(sg.Field), behind, detached
+		if sg.Ptr != "" {
+			e, nb, follow, det := bl.throughPtr(gv, sg.Ptr == "nil", phase, behind, "pointer field "+sg.Field+" of group "+sg.Desc)
+			if !follow {
+				continue
+			}
+			gv, gBehind = e, nb
+			if det != "" {
+				gDet = det
+			}
+		}
+		bl.bindGroup(cmdID, path+"."+sg.Field, sg, gv, nil, phase, gBehind, gDet)
 	}
 	if host != nil {
-		if host.Pos != nil {
+		if host.Pos != nil && mine {
 			pv := v.FieldByName(host.Pos.Field)
 			for i, a := range host.Pos.Args {
 				if sp := host.Pos.Split; sp > 0 && sp < len(host.Pos.Args) && i >= sp {
 					pv = v.FieldByName(host.Pos.Field + "B")
 				}
 				b.PosVal[host.ID+"/"+a.Field] = pv.FieldByName(a.Field)
+				if detached != "" {
+					b.Detached[host.ID+"/"+a.Field] = detached
+				}
 			}
 		}
 		for i := range host.Cmds {
 			c := &host.Cmds[i]
-			if c.ByTag {
-				bl.bindGroup(c.ID, "", &c.G, v.FieldByName(c.Field), c)
+			if !c.ByTag {
+				continue
 			}
+			cv, cBehind, cDet := v.FieldByName(c.Field), behind, detached
+			if c.Ptr != "" {
+				e, nb, follow, det := bl.throughPtr(cv, c.Ptr == "nil", phase, behind, "pointer field "+c.Field+" of command "+c.Name)
+				if !follow {
+					continue
+				}
+				cv, cBehind = e, nb
+				if det != "" {
+					cDet = det
+				}
+			}
+			bl.bindGroup(c.ID, "", &c.G, cv, c, phase, cBehind, cDet)
 		}
 	}
 }
@@ -836,6 +973,7 @@ func Build(d *Decl) *Built {
 		PlainIni: map[string]interface{}{},
 		PosVal:   map[string]reflect.Value{},
 		Cmds:     map[string]*flags.Command{},
+		Detached: map[string]string{},
 	}
 	bl := &builder{b: b, d: d}
 	p := flags.NewNamedParser(d.Root.Name, flags.Options(d.Opts))
@@ -870,12 +1008,13 @@ func (bl *builder) attach(lc *flags.Command, c *Cmd) {
 		}
 		t := bl.groupType(g, host)
 		v := reflect.New(t)
-		bl.bindGroup(c.ID, g.Field, g, v.Elem(), host)
+		bl.bindGroup(c.ID, g.Field, g, v.Elem(), host, 0, false, "")
 		lg, err := lc.AddGroup(g.Desc, g.LongDesc, v.Interface())
 		if err != nil {
 			b.Err = err
 			return
 		}
+		bl.bindGroup(c.ID, g.Field, g, v.Elem(), host, 1, false, "")
 		lg.Namespace = g.Namespace
 		lg.EnvNamespace = g.EnvNamespace
 		lg.Hidden = g.Hidden
